@@ -423,7 +423,7 @@ def slxLine (args impl : List String) : String :=
     s!"{m} | {v} | {String.intercalate "," tags}"
   | _ => "bad-op | |"
 
-/-- crashpt <prior> <k> <k1> <k2> => ev … ; crashed … ; restarted … -/
+/-- crashpt <prior> <k> <k1> <k2> => ev … ; crashed open:… file:… attached:… fresh:… ; restarted … -/
 def crashLine (args0 impl : List String) : String :=
   -- `@old` / `@bin`: age and spelling of the file name; the protocol does not depend on either
   let mods := args0.takeWhile (fun t => t.startsWith "@")
@@ -434,6 +434,7 @@ def crashLine (args0 impl : List String) : String :=
     | "wiped" :: r => some (.wiped, r)
     | "valid" :: g :: k :: r => (do some (Crash.Prior.valid (← g.toNat?) (← k.toNat?), r))
     | "validv" :: v :: g :: k :: r => (do some (Crash.Prior.validv (← v.toNat?) (← g.toNat?) (← k.toNat?), r))
+    | "foreign" :: g :: k :: r => (do some (Crash.Prior.foreign (← g.toNat?) (← k.toNat?), r))
     | _ => none
   match parsed with
   | some (p, [k, k1, k2]) =>
@@ -448,7 +449,13 @@ def crashLine (args0 impl : List String) : String :=
       let len2 : Int := (field "len").toInt?.getD (-2)
       let att1 : String := ((atts[0]?).map (fun t => (t.drop 9).toString)).getD "?"
       let att2 : String := ((atts[1]?).map (fun t => (t.drop 9).toString)).getD "?"
-      let o : Crash.Observed := ⟨evName, field "open", len1, att1, field "inode_same" == "1", len2, field "fresh", att2, field "mode"⟩
+      -- two `fresh:` tokens: one in the `crashed` group (a client attaching between the crash and the
+      -- restart), one in the `restarted` group; a group without one yields `?`, which no clause accepts
+      let afterEv := (impl.dropWhile (· != ";")).drop 1
+      let freshOf (g : List String) : String := ((g.find? (fun t => t.startsWith "fresh:")).map (fun t => (t.drop 6).toString)).getD "?"
+      let fresh1 := freshOf (afterEv.takeWhile (· != ";"))
+      let fresh2 := freshOf ((afterEv.dropWhile (· != ";")).drop 1)
+      let o : Crash.Observed := ⟨evName, field "open", len1, att1, fresh1, field "inode_same" == "1", len2, fresh2, att2, field "mode"⟩
       -- C16's repair clause (a fresh client can open and reads the record; readable by other users) and
       -- C03's catch-up clause (an attached reader sees the restarted writer's publication) on the same run
       let c16 := o.fresh == Crash.cellsText (Crash.recCells k2) && o.mode == "644"
